@@ -109,6 +109,7 @@ SCRIPT = textwrap.dedent(
         def build(self, rec, with_registry=True):
             plan, reg = Plan(), Registry()
             objs, stores = [], {}
+            pending = []     # registry.add in an order independent of node creation (sources are registered when created)
             self.fns = {}
             for i, nd in enumerate(self.nodes):
                 pos = [objs[j] for k, j in nd["args"] if k == "pos"]
@@ -132,10 +133,15 @@ SCRIPT = textwrap.dedent(
                         self.fns[i] = mk(i)
                         o = plan.call(self.fns[i], *pos, **kw)
                         if nd["stored"] and with_registry:
-                            st = stores[i] = MemStore(f"st{i}", rec); reg.add(o, st)
+                            st = stores[i] = MemStore(f"st{i}", rec); pending.append((o, st))
                 objs.append(o)
                 for k, j in nd["args"]:
                     if k == "dep": plan.add_dependency(objs[j], o)
+                if pending and self.rnd.random() < 0.5:
+                    self.rnd.shuffle(pending)
+                    while pending: reg.add(*pending.pop())
+            self.rnd.shuffle(pending)
+            for o, st in pending: reg.add(o, st)
             return plan, reg, objs, stores
 
     def snapshot(plan, reg):
